@@ -1,3 +1,5 @@
+//go:build !skip_c11
+
 package main
 
 import (
@@ -169,10 +171,10 @@ func runC11(tier string, seed int64, outdir string, replay string) error {
 		// account keys: a is the CA URL, b the e-mail
 		ik := certmagic.VerifIssuerKey(a)
 		up, ur, uk := certmagic.VerifUserKeys(a, b)
-		add(9, []string{ik, b}, ur, "", nt)
-		add(10, []string{ik, b}, uk, "", nt)
-		add(12, []string{ik, b}, up, "", nt)
-		add(11, []string{a, b}, certmagic.VerifChallengeTokensKey(a, b), "", nt)
+		add(9, []string{ik, b}, ur, keys.Safe(ik), nt)
+		add(10, []string{ik, b}, uk, keys.Safe(ik), nt)
+		add(12, []string{ik, b}, up, keys.Safe(ik), nt)
+		add(11, []string{a, b}, certmagic.VerifChallengeTokensKey(a, b), keys.Safe(a), nt)
 	}
 
 	if replay != "" {
@@ -234,6 +236,12 @@ func runC11(tier string, seed int64, outdir string, replay string) error {
 	}
 	emails := []string{"", "foo@example.com", "@x", "a@", "A.B@Example.com", "..@..", "./.@a", "me", "Ünï@x.y"}
 	cas := []string{"https://acme-v02.api.letsencrypt.org/directory", "https://ca.example/a/b/../c", "not a url", "https://[::1]:14000/dir", "//../..", "https://ca.example/..\\..", "http://x/%2e%2e/"}
+	// CA strings that url.Parse rejects (issuerKey then keeps the raw string), with traversal bodies
+	for _, brk := range []string{"\x00", ":", "%zz", "http://[::1", "http://a b", "\x7f"} {
+		for _, body := range []string{"../..", "/..", "../../x", "a/b", "..", "/../../outside/"} {
+			cas = append(cas, brk+body, body+brk, body+brk+body)
+		}
+	}
 	for _, ca := range cas {
 		for _, e := range emails {
 			builderCases(ca, e)
